@@ -1,6 +1,9 @@
 """C03 - runs are reproducible and unaffected by where they are stopped and resumed."""
 import hashlib, json, os, subprocess, sys, random
-from harness import kprops, kgen, kscript
+from harness import kprops, kgen, kscript, kbridge
+from harness.kbridge import TRUSTED_EXTRA
+EXTRA_MODULES = kbridge.MODULES['C03']      # Props/KernelGen03: the refusal test and the stop event of run(until=<number>)
+prepare = kbridge.prepare_for('C03')    # regenerates Generated/KernelRun03.lean only
 from vlib.util import VERIF, REPO
 ASSUMPTIONS = ['"observable trace" = what process bodies and probe callbacks see (env.now, values, exceptions, order)',
                'hash-seed independence is sampled (fresh interpreters with several PYTHONHASHSEED values), not a theorem',
@@ -80,4 +83,5 @@ def run(ctx):
     res['coverage']['network_scenario_runs'] = nnet
     res['coverage']['reproducibility_runs'] = 2 * len(cases) + nfresh
     res['coverage']['hash_seeds'] = seeds
+    res['coverage'].update(kbridge.coverage('C03'))
     return res
